@@ -26,6 +26,7 @@ structure Live (sk : Skeleton) : Prop where
   wfrees   : sk.stubWaiterFreesOnExit = true
   skipDec  : sk.stubTwoOutSkipsDecodeWhenCancelled = true
   pubChecksClosed : sk.bcPublishChecksClosed = true
+  invokeOutside : sk.clInvokeOutsideLock = true   -- CallClosure unlocks closuresLock before it calls the closure
 
 theorem run_cons (sk : Skeleton) {s s1 s' : State} {a : Act} {as : List Act}
     (h1 : step sk s a = some s1) (h2 : run sk s1 as = some s') : run sk s (a :: as) = some s' := by
@@ -57,6 +58,9 @@ include hv hr
 theorem alive : s.crashed = false ∧ s.bc.crashed = false ∧ s.bc.lockHolder = none :=
   ⟨reach_no_crash sk hv.recovers hv.hyg hv.nochan hr, (reach_nc sk hv.hyg hv.nochan hr).nocrash,
    reach_lock_free sk hv.outside hr⟩
+
+/-- the closure table's mutex is free: registering / releasing closures never waits for a closure body -/
+theorem cl_free : s.clLock = none := reach_cl_free sk hv.invokeOutside hr
 
 /-- a waiter that has not called the receive function yet can do so -/
 theorem waiterRecvCall_enabled (c : Nat) (hw : s.waiters c = .start) :
@@ -181,7 +185,7 @@ theorem callReturnOk_enabled (c : Nat) (hp : (s.calls c).pc = .decoded) :
       closures := freeClosures sk s c,
       calls := upd s.calls c { s.calls c with pc := .returned } } := by
   obtain ⟨hc, _, _⟩ := alive sk hv hr
-  simp [step, hc, hp]
+  simp [step, hc, hp, cl_free sk hv hr]
 
 /-- the panic path always completes: the stub recovers, reports the error, returns `(zero, e)` -/
 theorem callRecover_enabled (c e : Nat) (hp : (s.calls c).pc = .panicking e) :
@@ -190,7 +194,19 @@ theorem callRecover_enabled (c e : Nat) (hp : (s.calls c).pc = .panicking e) :
       calls := upd s.calls c { s.calls c with pc := .returned, outcome := .failed e },
       setters := upd s.setters c (.entered e) } := by
   obtain ⟨hc, _, _⟩ := alive sk hv hr
-  simp [step, hc, hp, hv.recovers, hv.setsErr]
+  simp [step, hc, hp, hv.recovers, hv.setsErr, cl_free sk hv hr]
+
+/-- entering a stub never waits — in particular `registerClosure` does not wait for a closure body
+    that is running (whatever `s.running` is) -/
+theorem callStart_enabled (c x numOut n : Nat) (hp : (s.calls c).pc = .absent) (hst : s.setters c = .absent)
+    (hn : numOut = 1 ∨ numOut = 2) : (step sk s (.callStart c x numOut n)).isSome = true := by
+  obtain ⟨hc, _, _⟩ := alive sk hv hr
+  simp [step, hc, hp, hst, hn, cl_free sk hv hr]
+
+/-- `CallClosure`'s look-up never waits for the body of another invocation -/
+theorem closureInvoke_enabled (q id : Nat) : (step sk s (.closureInvoke q id)).isSome = true := by
+  obtain ⟨hc, _, _⟩ := alive sk hv hr
+  simp [step, hc, cl_free sk hv hr]
 
 /-- on a closed table `Receive` is refused: the stub panics with `ErrClosed` -/
 theorem callReceive_refused (c : Nat) (hp : (s.calls c).pc = .marshalled) (hcl : s.bc.closed = true) :
